@@ -119,12 +119,11 @@ Qed.
 Lemma andb_intro (a b : bool) : a = true -> b = true -> a && b = true.
 Proof. intros -> ->. reflexivity. Qed.
 
-Lemma wire_open i : forallb wf_purl (map dec_purl (sx_l (sx_nth i 2))) = true -> spec_open i (model_open i) = true.
+Lemma wire_open_gen r names ps nw :
+  Inv r names -> ids_pos names -> forallb wf_purl ps = true ->
+  spec_open_at names ps nw (obs_open (open r ps 0) nw) = true.
 Proof.
-  intros Hwf. unfold spec_open, model_open.
-  set (names := dec_names (sx_nth i 1)) in *. set (ps := map dec_purl (sx_l (sx_nth i 2))) in *.
-  set (nw := sx_n (sx_nth i 3)). set (r := reg_all sreg0 names).
-  pose proof (Inv_case names) as HI. fold r in HI. pose proof (dec_names_pos (sx_nth i 1)) as Hpos. fold names in Hpos.
+  intros HI Hpos Hwf. unfold spec_open_at, obs_open.
   pose proof (open_atomic r ps 0) as A. cbn zeta in A. destruct A as (Hk & Hnd & A).
   assert (Hcalls : o_calls (open r ps 0) = spec_calls names ps).
   { unfold open. pose proof (open_loop_spec r ps 0) as S. destruct (open_loop r ps 0) as [[ws ne] cl].
@@ -158,33 +157,22 @@ Proof.
     { apply std_uniform. intros s Hin Hc. split; [apply Hwr|]. rewrite (Hcl s Hin), Hc. reflexivity. }
     rewrite S2, S3, undone_stats, spec_std_0, !sx_eqb_refl, all_in_incl by apply incl_refl. reflexivity.
 Qed.
+Lemma wire_open i : forallb wf_purl (map dec_purl (sx_l (sx_nth i 2))) = true -> spec_open i (model_open i) = true.
+Proof.
+  intros Hwf. unfold spec_open, model_open.
+  apply wire_open_gen; [apply Inv_case|apply dec_names_pos|exact Hwf].
+Qed.
+
 
 (* ------------------------------------------------------------------ kind 1 *)
-Definition spec_build' (names : list (bytes * nat)) (encs : list (bytes * (nat * bool))) (cfg : bcfg) (nw : nat) (o : sx) : bool :=
-  let probs := spec_problems encs names cfg in
-  let calls := map enc_call (spec_calls names (c_out cfg) ++ spec_calls names (c_errp cfg)) in
-  let kinds := spec_kinds names (c_out cfg) ++ spec_kinds names (c_errp cfg) in
-  if is_nil probs then
-    sx_eqb (sx_nth o 0) (SZ 0) && sx_eqb (sx_nth o 2) (SL calls)
-    && sx_eqb (sx_nth o 3) (spec_stats kinds nw 0)
-    && sx_eqb (sx_nth o 4) (spec_stats kinds nw 0)
-    && sx_eqb (sx_nth o 5) (spec_std kinds nw)
-  else
-    existsb (Z.eqb (sx_z (sx_nth o 0))) probs && all_in (sx_l (sx_nth o 2)) calls
-    && sx_eqb (sx_nth o 3) (SL []) && forallb undone (sx_l (sx_nth o 4))
-    && sx_eqb (sx_nth o 5) std_untouched.
-Lemma spec_build_unfold i o :
-  spec_build i o = spec_build' (dec_names (sx_nth i 1)) (dec_encs (sx_nth i 2)) (dec_cfg i) (sx_n (sx_nth i 9)) o.
-Proof. reflexivity. Qed.
-
 Lemma spec_build_err names encs cfg nw code ctor calls sinks E :
   In code (spec_problems encs names cfg) ->
   incl calls (spec_calls names (c_out cfg) ++ spec_calls names (c_errp cfg)) ->
   all_undone sinks E ->
-  spec_build' names encs cfg nw
+  spec_build_at names encs cfg nw
     (SL [SZ code; ctor; SL (map enc_call calls); SL []; stats E sinks; std_pair E sinks]) = true.
 Proof.
-  intros Hin Hincl (Hcl & Hwr). unfold spec_build'.
+  intros Hin Hincl (Hcl & Hwr). unfold spec_build_at.
   destruct (spec_problems encs names cfg) as [|p0 pt] eqn:Ep; [destruct Hin|]. cbn [is_nil sx_nth sx_l nth sx_z].
   assert (S2 : stats E sinks = spec_stats (map skd sinks) 0 1).
   { apply stats_uniform. intros s Hs Hc. split; [apply Hwr|]. rewrite (Hcl s Hs), Hc. reflexivity. }
@@ -211,18 +199,12 @@ Proof.
   rewrite (nfail_spec r names HI Hpos _ W1), (nfail_spec r names HI Hpos _ W2) in Hf. auto.
 Qed.
 
-Lemma wire_build i :
-  forallb wf_purl (map dec_purl (sx_l (sx_nth i 7))) = true ->
-  forallb wf_purl (map dec_purl (sx_l (sx_nth i 8))) = true ->
-  spec_build i (model_build i) = true.
+Lemma wire_build_gen names encs cfg nw r er :
+  Inv r names -> ids_pos names -> EInv er encs ->
+  forallb wf_purl (c_out cfg) = true -> forallb wf_purl (c_errp cfg) = true ->
+  spec_build_at names encs cfg nw (obs_build (build er r cfg) nw) = true.
 Proof.
-  intros W1 W2. rewrite spec_build_unfold. unfold model_build, model_build_with.
-  set (names := dec_names (sx_nth i 1)). set (encs := dec_encs (sx_nth i 2)). set (cfg := dec_cfg i).
-  set (nw := sx_n (sx_nth i 9)). set (er := ereg_all ereg0 encs). set (r := reg_all sreg0 names).
-  pose proof (Inv_case names) as HI. fold r in HI. pose proof (dec_names_pos (sx_nth i 1)) as Hpos. fold names in Hpos.
-  pose proof (EInv_case encs) as HE. fold er in HE.
-  change (map dec_purl (sx_l (sx_nth i 7))) with (c_out cfg) in W1.
-  change (map dec_purl (sx_l (sx_nth i 8))) with (c_errp cfg) in W2.
+  intros HI Hpos HE W1 W2. unfold obs_build.
   assert (Hnil : all_undone [] []) by apply all_undone_nil.
   assert (Hi0 : incl (@nil call) (spec_calls names (c_out cfg) ++ spec_calls names (c_errp cfg))) by (intros x []).
   unfold build, new_encoder.
@@ -260,7 +242,7 @@ Proof.
   rewrite (kinds_spec r names HI Hpos _ W1) in Hk1. rewrite (kinds_spec r names HI Hpos _ W2) in Hk2.
   rewrite (nfail_spec r names HI Hpos _ W1) in F1. rewrite (nfail_spec r names HI Hpos _ W2) in F2.
   rewrite (calls_spec r names HI Hpos _ W1), (calls_spec r names HI Hpos _ W2) in Hc.
-  unfold spec_build', spec_problems. rewrite Et, En, Ese, El, F1, F2. cbn [Nat.add Nat.eqb app is_nil].
+  unfold spec_build_at, spec_problems. rewrite Et, En, Ese, El, F1, F2. cbn [Nat.add Nat.eqb app is_nil].
   rewrite Hs, He, Hc. cbn [app sx_nth sx_l nth].
   assert (Hnd1 : NoDup (ids ws1)) by (rewrite I1; apply seq_NoDup).
   assert (Hnd2 : NoDup (ids ws2)) by (rewrite I2; apply seq_NoDup).
@@ -277,6 +259,15 @@ Proof.
   { apply std_uniform. intros s Hin _. apply Hcount, Hin. }
   rewrite S1, S3, (map_app skd), Hk1, Hk2, !sx_eqb_refl. reflexivity.
 Qed.
+Lemma wire_build i :
+  forallb wf_purl (map dec_purl (sx_l (sx_nth i 7))) = true ->
+  forallb wf_purl (map dec_purl (sx_l (sx_nth i 8))) = true ->
+  spec_build i (model_build i) = true.
+Proof.
+  intros W1 W2. unfold spec_build, model_build, model_build_with.
+  apply wire_build_gen; [apply Inv_case|apply dec_names_pos|apply EInv_case|exact W1|exact W2].
+Qed.
+
 
 (* ------------------------------------------------------------------ kind 3 *)
 Lemma reg_code r names name id : Inv r names ->
@@ -351,18 +342,215 @@ Qed.
 Lemma sreg0_keys : keys sreg0 = [s_file].
 Proof. vm_compute. reflexivity. Qed.
 
+(* ------------------------------------------------------------------ kind 5 *)
+Lemma not_blocked2 a b l : is_blocked (SL (a :: b :: l)) = false.
+Proof. unfold is_blocked, blocked. cbn. apply andb_false_r. Qed.
+
+Lemma model_redirect_shape op : exists a b l, model_redirect op = SL (a :: b :: l).
+Proof.
+  unfold model_redirect, model_redirect_with. destruct (redirect _ _) as [rr st1].
+  eexists _, _, _. reflexivity.
+Qed.
+
+Lemma ereg_code er encs name v : EInv er encs ->
+  let c := if is_nil name then 1%Z else match spec_enc encs name with Some _ => 3%Z | None => 0%Z end in
+  rres_code (fst (register_enc er name v)) = c
+  /\ keys (snd (register_enc er name v)) = if Z.eqb c 0 then keys er ++ [name] else keys er.
+Proof.
+  intros HE. cbn zeta. unfold register_enc. destruct (is_nil name); [split; reflexivity|].
+  rewrite (HE name). destruct (spec_enc encs name); cbn [fst snd rres_code Z.eqb]; [split; reflexivity|].
+  split; [reflexivity|]. rewrite keys_app. reflexivity.
+Qed.
+
+Lemma wire_mix_ops : forall ops r er names encs id,
+  Inv r names -> ids_pos names -> EInv er encs -> id <> 0 -> forallb wf_op5 ops = true ->
+  spec_mix_ops names encs (keys r) (keys er) id ops (model_mix_ops r er id ops) = true.
+Proof.
+  induction ops as [|op t IH]; intros r er names encs id HI Hpos HE Hid Hwf; cbn [model_mix_ops spec_mix_ops]; [reflexivity|].
+  cbn [forallb] in Hwf. apply andb_true_iff in Hwf as [Hop Ht]. unfold wf_op5 in Hop.
+  destruct (Z.eqb (tag op) 0) eqn:E0.
+  { (* RegisterSink *)
+    set (name := sx_b (sx_nth op 1)). destruct (reg_code r names name id HI) as (Hc & Hk).
+    pose proof (Inv_step r names name id HI) as HI'.
+    destruct (register r name id) as [c r'] eqn:Er. cbn [fst snd] in *.
+    rewrite not_blocked2. cbn [negb andb]. rewrite Hc, Hk, sx_eqb_refl. cbn [andb]. rewrite <- Hk.
+    apply IH; try assumption; try lia.
+    unfold ids_pos in *. apply Forall_app. split; [exact Hpos|]. constructor; [exact Hid|constructor]. }
+  destruct (Z.eqb (tag op) 1) eqn:E1.
+  { (* Open *)
+    rewrite not_blocked2. cbn [negb andb sx_nth sx_l nth].
+    rewrite (wire_open_gen r names _ _ HI Hpos Hop), sx_eqb_refl. cbn [andb].
+    apply IH; try assumption; lia. }
+  destruct (Z.eqb (tag op) 2) eqn:E2.
+  { (* RegisterEncoder *)
+    set (name := sx_b (sx_nth op 1)). set (v := (id, sx_bool (sx_nth op 2))).
+    destruct (ereg_code er encs name v HE) as (Hc & Hk). cbn zeta in Hc, Hk.
+    pose proof (EInv_step er encs name v HE) as HE'.
+    destruct (register_enc er name v) as [c er'] eqn:Er. cbn [fst snd] in *.
+    rewrite not_blocked2. cbn [negb andb]. rewrite Hc, Hk, sx_eqb_refl. cbn [andb].
+    match goal with |- spec_mix_ops _ _ _ ?k _ _ _ = true => replace k with (keys er') by (rewrite Hk; reflexivity) end.
+    apply IH; try assumption; lia. }
+  destruct (Z.eqb (tag op) 3) eqn:E3.
+  { (* Config.Build *)
+    apply andb_true_iff in Hop as [W1 W2].
+    rewrite not_blocked2. cbn [negb andb sx_nth sx_l nth].
+    rewrite (wire_build_gen names encs (dec_cfg5 op) _ r er HI Hpos HE W1 W2), !sx_eqb_refl. cbn [andb].
+    apply IH; try assumption; lia. }
+  rewrite Hop.
+  (* redirection *)
+  destruct (model_redirect_shape op) as (a & b & l & Es). rewrite Es, not_blocked2, <- Es. cbn [negb andb].
+  rewrite wire_redirect. cbn [andb]. apply IH; try assumption; lia.
+Qed.
+
+Lemma ereg0_keys : keys ereg0 = [s_console; s_json].
+Proof. reflexivity. Qed.
+
+(* ------------------------------------------------------------------ no operation blocks *)
+Lemma sx_eqb_eq : forall a b, sx_eqb a b = true -> a = b.
+Proof.
+  fix IH 1. intros [z|x|l] [z'|x'|l']; cbn; try discriminate.
+  - intros H. apply Z.eqb_eq in H. subst. reflexivity.
+  - intros H. apply bytes_eqb_eq in H. subst. reflexivity.
+  - intros H. f_equal. revert l' H. induction l as [|a l IHl]; intros [|b l'] H; try discriminate H; [reflexivity|].
+    apply andb_true_iff in H as [H1 H2]. f_equal; [apply IH, H1 | apply IHl, H2].
+Qed.
+Lemma eqb_not_blocked ob a b l : sx_eqb ob (SL (a :: b :: l)) = true -> is_blocked ob = false.
+Proof. intros H. apply sx_eqb_eq in H. subst. apply not_blocked2. Qed.
+
+(* whatever the oracle accepts for a history has one entry per operation, none of
+   them the marker of an operation that did not return *)
+Definition all_returned (ops obs : list sx) : Prop :=
+  length obs = length ops /\ Forall (fun ob => is_blocked ob = false) obs.
+Lemma all_returned_cons op ops ob obs : is_blocked ob = false -> all_returned ops obs -> all_returned (op :: ops) (ob :: obs).
+Proof. intros H (L & F). split; [cbn [length]; now rewrite L|constructor; assumption]. Qed.
+
+Lemma sreg_returned : forall ops names ks id obs,
+  spec_sreg_ops names ks id ops obs = true -> all_returned ops obs.
+Proof.
+  induction ops as [|op t IH]; intros names ks id [|ob obs]; cbn [spec_sreg_ops]; try discriminate.
+  - intros _. split; [reflexivity|constructor].
+  - destruct (Z.eqb (sx_z (sx_nth op 0)) 0).
+    + intros H. apply andb_true_iff in H as [H1 H2].
+      apply all_returned_cons; [eapply eqb_not_blocked, H1|eapply IH, H2].
+    + destruct (spec_path names (dec_purl (sx_nth op 1))) as [cs res]. intros H. apply andb_true_iff in H as [H1 H2].
+      apply all_returned_cons; [eapply eqb_not_blocked, H1|eapply IH, H2].
+Qed.
+Lemma ereg_returned : forall ops encs ks id obs,
+  spec_ereg_ops encs ks id ops obs = true -> all_returned ops obs.
+Proof.
+  induction ops as [|op t IH]; intros encs ks id [|ob obs]; cbn [spec_ereg_ops]; try discriminate.
+  - intros _. split; [reflexivity|constructor].
+  - destruct (Z.eqb (sx_z (sx_nth op 0)) 0).
+    + intros H. apply andb_true_iff in H as [H1 H2].
+      apply all_returned_cons; [eapply eqb_not_blocked, H1|eapply IH, H2].
+    + intros H. apply andb_true_iff in H as [H1 H2].
+      apply all_returned_cons; [|eapply IH, H2].
+      destruct (is_nil (sx_b (sx_nth op 1))); [eapply eqb_not_blocked, H1|].
+      destruct (spec_enc encs (sx_b (sx_nth op 1))) as [[cid [|]]|]; eapply eqb_not_blocked, H1.
+Qed.
+Lemma mix_returned : forall ops names encs sks eks id obs,
+  spec_mix_ops names encs sks eks id ops obs = true -> all_returned ops obs.
+Proof.
+  induction ops as [|op t IH]; intros names encs sks eks id [|ob obs]; cbn [spec_mix_ops]; try discriminate.
+  - intros _. split; [reflexivity|constructor].
+  - intros H. apply andb_true_iff in H as [Hb H]. apply negb_true_iff in Hb.
+    apply all_returned_cons; [exact Hb|].
+    destruct (Z.eqb (tag op) 0); [apply andb_true_iff in H as [_ H]; eapply IH, H|].
+    destruct (Z.eqb (tag op) 1); [apply andb_true_iff in H as [_ H]; eapply IH, H|].
+    destruct (Z.eqb (tag op) 2); [apply andb_true_iff in H as [_ H]; eapply IH, H|].
+    destruct (Z.eqb (tag op) 3); [apply andb_true_iff in H as [_ H]; eapply IH, H|].
+    destruct (Z.eqb (tag op) 4); [apply andb_true_iff in H as [_ H]; eapply IH, H|discriminate].
+Qed.
+
+Lemma history_returned i o : history_kind i = true -> spec i o = true -> all_returned (sx_l (sx_nth i 1)) (sx_l o).
+Proof.
+  unfold history_kind, spec. intros Hk H.
+  destruct (sx_z (sx_nth i 0)) as [|p|p]; try discriminate.
+  do 3 (try destruct p as [p|p|]); try discriminate.
+  - eapply mix_returned. unfold spec_mix in H. apply andb_true_iff in H as [_ H]. exact H.
+  - eapply sreg_returned. exact H.
+  - eapply ereg_returned. exact H.
+Qed.
+
+(* the marker itself, as the observation of a whole case, is rejected on every case *)
+Lemma problems_not_7 encs names cfg : existsb (Z.eqb 7) (spec_problems encs names cfg) = false.
+Proof.
+  unfold spec_problems.
+  destruct (c_timekey cfg && negb (c_enctime cfg)); destruct (is_nil (c_encoding cfg));
+    try destruct (spec_enc encs (c_encoding cfg)) as [[cid [|]]|];
+    destruct (Nat.eqb _ 0); destruct (c_level cfg); reflexivity.
+Qed.
+Lemma blocked_rejected i : spec i blocked = false.
+Proof.
+  unfold spec. destruct (sx_z (sx_nth i 0)) as [|p|p]; try reflexivity.
+  - unfold spec_open, spec_open_at. destruct (Nat.eqb _ 0); reflexivity.
+  - do 3 (try destruct p as [p|p|]); try reflexivity.
+    + (* 3 *) unfold spec_sreg. cbn [blocked sx_l]. destruct (sx_l (sx_nth i 1)) as [|op t]; [reflexivity|].
+      cbn [spec_sreg_ops]. destruct (Z.eqb (sx_z (sx_nth op 0)) 0); [reflexivity|].
+      destruct (spec_path [] (dec_purl (sx_nth op 1))); reflexivity.
+    + (* 4 *) unfold spec_ereg. cbn [blocked sx_l]. destruct (sx_l (sx_nth i 1)) as [|op t]; [reflexivity|].
+      cbn [spec_ereg_ops]. destruct (Z.eqb (sx_z (sx_nth op 0)) 0); [reflexivity|].
+      destruct (is_nil (sx_b (sx_nth op 1))); [reflexivity|].
+      destruct (spec_enc [] (sx_b (sx_nth op 1))) as [[cid [|]]|]; reflexivity.
+    + (* 2 *) unfold spec_redirect. destruct (named_level _); reflexivity.
+    + (* 1 *) unfold spec_build, spec_build_at. destruct (is_nil _); [reflexivity|].
+      cbn [blocked sx_nth sx_l nth sx_z]. now rewrite problems_not_7.
+Qed.
+
+(* a rejected registration is a no-op for the rest of a history: the remaining
+   operations run on exactly the registries they would have run on without it *)
+Lemma mix_rejected_sink r er id op t :
+  tag op = 0%Z -> fst (register r (sx_b (sx_nth op 1)) id) <> ROk ->
+  model_mix_ops r er id (op :: t) =
+  SL [SZ 0; SZ (rres_code (fst (register r (sx_b (sx_nth op 1)) id))); enc_keys (keys r)]
+  :: model_mix_ops r er (S id) t.
+Proof.
+  intros Ht Hc. cbn [model_mix_ops]. rewrite Ht. cbn [Z.eqb].
+  pose proof (register_spec r (sx_b (sx_nth op 1)) id) as S.
+  destruct (register r (sx_b (sx_nth op 1)) id) as [c r']. cbn [fst] in *.
+  destruct S as (_ & _ & _ & _ & _ & Hr & _). rewrite (Hr Hc). reflexivity.
+Qed.
+Lemma mix_rejected_enc r er id op t :
+  tag op = 2%Z -> fst (register_enc er (sx_b (sx_nth op 1)) (id, sx_bool (sx_nth op 2))) <> ROk ->
+  model_mix_ops r er id (op :: t) =
+  SL [SZ 0; SZ (rres_code (fst (register_enc er (sx_b (sx_nth op 1)) (id, sx_bool (sx_nth op 2))))); enc_keys (keys er)]
+  :: model_mix_ops r er (S id) t.
+Proof.
+  intros Ht Hc. cbn [model_mix_ops]. rewrite Ht. cbn [Z.eqb].
+  pose proof (register_enc_spec er (sx_b (sx_nth op 1)) (id, sx_bool (sx_nth op 2))) as S.
+  destruct (register_enc er (sx_b (sx_nth op 1)) (id, sx_bool (sx_nth op 2))) as [c er']. cbn [fst] in *.
+  destruct S as (_ & _ & _ & Hr & _). rewrite (Hr Hc). reflexivity.
+Qed.
+
 (* ------------------------------------------------------------------ all kinds *)
 Lemma spec_model i : wf i = true -> spec i (model i) = true.
 Proof.
   intros Hwf. unfold wf, model, spec in *.
   destruct (sx_z (sx_nth i 0)) as [|p|p]; [apply wire_open, Hwf| |discriminate].
-  destruct p as [p|p|].
-  - destruct p as [p|p|]; try discriminate.
-    unfold spec_sreg, model_sreg. cbn [sx_l]. rewrite <- sreg0_keys.
+  do 3 (try destruct p as [p|p|]); try discriminate.
+  - (* 5 *) unfold spec_mix, model_mix. cbn [sx_l].
+    assert (B : is_blocked (SL (model_mix_ops sreg0 ereg0 2 (sx_l (sx_nth i 1)))) = false).
+    { destruct (sx_l (sx_nth i 1)) as [|op t]; [reflexivity|].
+      destruct t as [|op2 t]; [|].
+      - unfold is_blocked, blocked. cbn [model_mix_ops].
+        destruct (Z.eqb (tag op) 0); [destruct (register _ _ _); reflexivity|].
+        destruct (Z.eqb (tag op) 1); [reflexivity|].
+        destruct (Z.eqb (tag op) 2); [destruct (register_enc _ _ _); reflexivity|].
+        destruct (Z.eqb (tag op) 3); [reflexivity|].
+        destruct (Z.eqb (tag op) 4); [|reflexivity].
+        destruct (model_redirect_shape op) as (a & b & l & ->). reflexivity.
+      - assert (L : forall r er id, exists a b l, model_mix_ops r er id (op :: op2 :: t) = a :: b :: l).
+        { intros r er id. cbn [model_mix_ops].
+          repeat match goal with
+                 | |- context [if ?c then _ else _] => destruct c
+                 | |- context [let '(_, _) := ?x in _] => destruct x
+                 end; eexists _, _, _; reflexivity. }
+        destruct (L sreg0 ereg0 2) as (a & b & l & ->). apply not_blocked2. }
+    rewrite B. cbn [negb andb]. rewrite <- sreg0_keys, <- ereg0_keys.
+    apply (wire_mix_ops _ sreg0 ereg0 [] [] 2 Inv0); [constructor|exact EInv0|discriminate|exact Hwf].
+  - (* 3 *) unfold spec_sreg, model_sreg. cbn [sx_l]. rewrite <- sreg0_keys.
     apply (wire_sreg_ops _ sreg0 [] 1 Inv0); [constructor|discriminate|exact Hwf].
-  - destruct p as [p|p|]; try discriminate.
-    + destruct p as [p|p|]; try discriminate.
-      unfold spec_ereg, model_ereg. cbn [sx_l]. apply (wire_ereg_ops _ ereg0 [] 2 EInv0).
-    + apply wire_redirect.
-  - apply andb_true_iff in Hwf as [W1 W2]. apply wire_build; assumption.
+  - (* 4 *) unfold spec_ereg, model_ereg. cbn [sx_l]. apply (wire_ereg_ops _ ereg0 [] 2 EInv0).
+  - (* 2 *) apply wire_redirect.
+  - (* 1 *) apply andb_true_iff in Hwf as [W1 W2]. apply wire_build; assumption.
 Qed.
